@@ -3,6 +3,7 @@ package main
 import (
 	"fmt"
 	"go/ast"
+	"go/constant"
 	"go/types"
 	"sort"
 	"strings"
@@ -184,7 +185,7 @@ func (e *Enc) externalModel(callee *ssa.Function) bool {
 	case "strings.HasPrefix", "strings.HasSuffix", "strings.Contains", "strings.TrimPrefix", "strings.TrimSuffix", "strings.Index",
 		"errors.New", "fmt.Errorf", "fmt.Sprintf", "fmt.Sprint", "strings.Repeat",
 		"sync/atomic.LoadInt32", "sync/atomic.StoreInt32", "sync/atomic.AddInt32", "sync/atomic.CompareAndSwapInt32",
-		"sync/atomic.LoadInt64", "sync/atomic.StoreInt64", "sync/atomic.AddInt64", "sort.Slice", "sort.SliceStable":
+		"sync/atomic.LoadInt64", "sync/atomic.StoreInt64", "sync/atomic.AddInt64", "sort.Slice", "sort.SliceStable", "regexp.MustCompile", "regexp.(*Regexp).MatchString", "strings.Trim":
 		return true
 	}
 	return false
@@ -233,6 +234,41 @@ func (f *Frame) externalCall(callee *ssa.Function, args []string, argVals []ssa.
 	case "fmt.Sprintf", "fmt.Sprint":
 		r := e.symbolic(f.prefix+"str", callee.Signature.Results().At(0).Type(), st, reach)
 		return callOut{reach, []string{r}, st}, true
+	case "regexp.MustCompile":
+		// a regular expression given as a constant: remember its language for MatchString
+		if c, ok := argVals[0].(*ssa.Const); ok && c.Value != nil && c.Value.Kind() == constant.String {
+			if re, err := regexToSMT(constant.StringVal(c.Value)); err == nil {
+				r := e.symbolic(f.prefix+"re", callee.Signature.Results().At(0).Type(), st, reach)
+				e.assume(reach, fmt.Sprintf("(not (= %s 0))", r))
+				if v, ok := in.(ssa.Value); ok {
+					if f.regex == nil {
+						f.regex = map[ssa.Value]string{}
+					}
+					f.regex[v] = re
+				}
+				e.note("assumed: regexp.MustCompile(%q).MatchString(s) is membership of s in the translated regular language", constant.StringVal(c.Value))
+				return callOut{reach, []string{r}, st}, true
+			} else {
+				e.note("regular expression %q not translated: %v", constant.StringVal(c.Value), err)
+			}
+		}
+		return callOut{}, false
+	case "regexp.(*Regexp).MatchString":
+		if re, ok := f.regex[argVals[0]]; ok {
+			return one(fmt.Sprintf("(str.in_re %s %s)", args[1], re))
+		}
+		return callOut{}, false
+	case "strings.Trim":
+		// Trim(s, c) for a one-character constant cutset: s = c* r c*, r neither begins nor ends with c
+		if c, ok := argVals[1].(*ssa.Const); ok && c.Value != nil && c.Value.Kind() == constant.String && len(constant.StringVal(c.Value)) == 1 {
+			lit := smtStringLit(constant.StringVal(c.Value))
+			r := e.freshConst(f.prefix+"trim", "String")
+			pre, post := e.freshConst(f.prefix+"trimpre", "String"), e.freshConst(f.prefix+"trimpost", "String")
+			e.assume(reach, fmt.Sprintf("(and (= %s (str.++ %s %s %s)) (str.in_re %s (re.* (str.to_re %s))) (str.in_re %s (re.* (str.to_re %s))) (not (str.prefixof %s %s)) (not (str.suffixof %s %s)))",
+				args[0], pre, r, post, pre, lit, post, lit, lit, r, lit, r))
+			return callOut{reach, []string{r}, st}, true
+		}
+		return callOut{}, false
 	case "sort.Slice", "sort.SliceStable":
 		if out, ok := f.sortSliceModel(callee, argVals, reach, st, in); ok {
 			return out, true
